@@ -70,3 +70,33 @@ def rule_numeric_families(run, prog, rid="R-11.10"):
            (f"{bad_invalid[0]!r} is no constant of C11 6.4.4 (it is a malformed one: wrong exponent letter for its base, exponent "
             f"without digits, suffix of the other family or unknown) but comes back as one CONSTANT without any lexical "
             f"diagnostic") if bad_invalid else "", fn.node, evaluations=n)
+    # ... whatever constants came before in the same file: each of a small set of constants, valid and malformed, alone and behind
+    # each other one (a memo of "this suffix is fine" shared between the integer and the float family shows here)
+    members = ["1.0f", "1f", "10u", "1.0u", "42", "1.5", "7ll", "0x1.8p3ll", "3d", "1.5d"]
+    bad_ctx, n2 = None, 0
+    try:
+        def second_of(src, k):
+            sim = LexerSim(prog, src)
+            seen, count = [], 0
+            for _ in range(8):
+                before = len(sim.error_names())
+                out = sim.call("get_next_token")
+                if out.kind != "ok" or out.value is None:
+                    break
+                if getattr(out.value, "type", None) == "CONSTANT":
+                    count += 1
+                    if count == k:
+                        return (out.value.value, tuple(sim.error_names()[before:]))
+            return None
+        for b in members:
+            alone = second_of(b + ";", 1)
+            for a in members:
+                n2 += 1
+                after = second_of(a + " " + b + ";", 2)
+                if after != alone and bad_ctx is None:
+                    bad_ctx = (a, b, alone, after)
+    except Unsupported as e:
+        raise Undecided(f"Lexer.get_next_token is outside the evaluable subset: {e}")
+    run.ob(rid, f"{fn.key}::independent-of-earlier-constants", bad_ctx is None,
+           (f"{bad_ctx[1]!r} alone gives (text, diagnostics) = {bad_ctx[2]}, behind {bad_ctx[0]!r} in the same file it gives {bad_ctx[3]}: the "
+            f"classification of a constant depends on the constants before it") if bad_ctx else "", fn.node, evaluations=n2)
